@@ -355,8 +355,11 @@ def run(ctx):
     r4 = rep.rule('C10.4-one-record-per-recipient', 'R-TYPESTATE', 'todo_do: exactly one channel record (rwline) per T record, to the channel rewrite() chose, in file order')
     td = qsend.analyse_todo_do(db, rep)
     attach(r4, td, only={'todo:exactly-one-channel-record-per-T', 'todo:no-channel-record-for-non-T', 'todo:channel-record-is-rwline',
-                         'todo:record-goes-to-the-channel-rewrite-chose', 'todo:rewrite-only-for-T-records'})
-    r4.expect_min(5)
+                         'todo:record-goes-to-the-channel-rewrite-chose', 'todo:rewrite-only-for-T-records',
+                         # a channel file left over from an interrupted attempt would keep recipients the new routing sends elsewhere
+                         'todo:nothing-removed-after-files-are-being-written', 'todo:old-files-removed-only-after-todo-opened-and-mess-stat',
+                         'todo:removes-only-info-and-channel-files'})
+    r4.expect_min(7)
 
     r5 = rep.rule('C10.5-HUP', 'R-SIBLING', 'HUP sets flagreadasap; the loop calls reread -> regetcontrols, which re-reads both files before freeing, and rebuilds each map with the same colon flag as getcontrols')
     gc = prog.fn('getcontrols', 'qmail-send.c')
